@@ -32,6 +32,13 @@
 //! with 2..4-entry lists of stored values where exactly one position is flipped / swapped with another entry / replaced
 //! by an older version's blob / truncated / emptied (`c17-forged-tag-accepted:stored-list-entry`).
 //!
+//! Glue (`c17_glue.rs`): the real `vls_util::persist::ExternalPersistWithHelper::init_state` — the place where vlsd acts
+//! on `check_hmac` for a read reply — with a mock `ExternalPersist` (honest server + man in the middle), vls-util built
+//! without debug assertions; and the LSS client driver's `PrivClient::get` / `put` (copied verbatim behind a mock
+//! transport): 32-byte fresh nonce per request (`c17-nonce-malformed`, `c17-nonce-reused`), recorded / tampered replies,
+//! forged acknowledgements and conflict lists refused, nothing unauthenticated in the restored state
+//! (`c17-forged-tag-accepted:restore-state`).
+//!
 //! Statefulness: one long-lived `ExternalPersistHelper` per case is driven through read 1 / reply / read 2 / ...
 //! with an entropy source the harness controls (`hnew`, `hnonce E`, `hcheck T recs`); monitors: consecutive
 //! requests with different entropy must get different nonces (`c17-nonce-reused`), and a reply recorded under an
@@ -43,6 +50,8 @@ use std::collections::BTreeMap;
 
 #[path = "c17_lss_gen.rs"]
 mod lss;
+#[path = "c17_glue.rs"]
+mod glue;
 use lss::util as lssu;
 use lss::Value;
 
@@ -367,6 +376,9 @@ fn exec_line(line: &str, i: usize, mon: &mut Monitor, hs: &mut HState, co: &mut 
         }
         // implementation only: the LSS client driver's `remove_and_check_hmacs` over a list of stored values as a get
         // reply / a put-conflict reply carries them.  `vals S (K V STORED)*` with STORED = bytes as stored (cipher layer on)
+        "istate" => glue::exec_istate(&t, i, co),
+        "pget" => glue::exec_pget(&t, i, co),
+        "pput" => glue::exec_pput(&t, i, co),
         "vals" => {
             let s = unhex(t[1]);
             let mut kvs: Vec<(String, Value)> = Vec::new();
@@ -775,7 +787,7 @@ impl Group for C17Hmac {
         ]
     }
     fn model_line(&self, op: &str) -> Option<String> {
-        if op.starts_with("procx ") || op.starts_with("encx ") || op.starts_with("vals ") {
+        if op.starts_with("procx ") || op.starts_with("encx ") || op.starts_with("vals ") || op.starts_with("istate ") || op.starts_with("pget ") || op.starts_with("pput ") {
             None
         } else if let Some(rest) = op.strip_prefix("lshared ") {
             Some(format!("shared {}", rest))
@@ -868,6 +880,20 @@ impl Group for C17Hmac {
                     recorded.push((tag_r, recs_r));
                     prev_e = Some(e);
                 }
+            }
+            // glue level: vlsd's restore-time read (init_state) and the LSS client driver's get / put, each behind an
+            // honest server + man in the middle
+            {
+                let hs2 = hexs(&rng.bytes(32));
+                ops.push(format!("istate {} honest{}", s, show_recs(&base)));
+                for _ in 0..3 {
+                    ops.push(format!("istate {} {}{}", s, rng.pick(&glue::ISTATE_MODES), show_recs(&base)));
+                }
+                ops.push(format!("pget {} {} honest {}{}", s, hs2, rng.range(2, 4), show_recs(&base)));
+                ops.push(format!("pget {} {} replay {}{}", s, hs2, rng.range(2, 3), show_recs(&base)));
+                ops.push(format!("pget {} {} {} {}{}", s, hs2, rng.pick(&glue::PGET_MODES), rng.range(1, 3), show_recs(&base)));
+                ops.push(format!("pput {} {} honest{}", s, hs2, show_recs(&base)));
+                ops.push(format!("pput {} {} {}{}", s, hs2, rng.pick(&glue::PPUT_MODES), show_recs(&base)));
             }
             for (_name, r) in mutate_recs(rng, &base) {
                 ops.push(format!("shared {} {}{}", s, n, show_recs(&r)));
@@ -1042,7 +1068,7 @@ impl Group for C17Hmac {
                 Err(_) => {
                     // a verifying entry point must answer accept/refuse for any bytes an outsider can supply
                     let opn = line.split(' ').next().unwrap_or("");
-                    if matches!(opn, "check" | "hcheck" | "proc" | "procx" | "vals") {
+                    if matches!(opn, "check" | "hcheck" | "proc" | "procx" | "vals" | "istate" | "pget" | "pput") {
                         co.violations.push(Violation {
                             kind: "c17-verifier-panicked".into(),
                             desc: format!("`{}` panicked instead of returning a verdict", opn),
